@@ -7,6 +7,7 @@ import CtyModel.Lemmas.d03Rules
 import CtyModel.Lemmas.d03Marks
 import CtyModel.Lemmas.d03SetVal
 import CtyModel.Lemmas.SetRefineRun
+import CtyModel.Lemmas.SetFnsTie
 import CtyModel.Lemmas.ValEqRules
 import CtyModel.Lemmas.ValEqSymm
 namespace CtyModel
@@ -1008,6 +1009,143 @@ example :
 
 end Values
 /-! ######################## end of SECTION «values» ######################## -/
+
+/-! ########################################################################
+## SECTION «cty/set, regenerated» — the same clauses about the SOURCE TEXT
+
+`Generated/SetFns.lean` is rewritten from `cty/set/{set,ops,iterator}.go` by
+`extract/translate_set.go` on every check; `Lemmas/SetFnsTie.lean` proves each
+translated function equal to the `SetImpl` function of section «cty/set».  The
+`…_generated` theorems restate the clauses of that section about the generated
+definitions: a Go set is its map `vals` (an association list, `s.buckets`) and
+its `rules`; `ord` is the order in which Go's `range` visits a map — ANY
+function returning a permutation (`MapOrder`), so nothing below depends on it;
+`same` is `Rules.SameRules`.  None of the translated functions panics, runs out
+of loop fuel or lets a zero value escape on a set satisfying the invariant.
+######################################################################## -/
+section SetGenerated
+open SetImpl SetGo SetFnsTie Generated.SetFns
+variable {α : Type} {R : Rules α}
+
+/-- `Has`, as written in ops.go, decides membership in the mathematical set. -/
+theorem set_refines_has_generated (hR : R.Lawful) {s : SetImpl α} (h : Inv R s) (x : α) :
+    (∃ b, Set_Has s.buckets R x = .ok b) ∧ (Set_Has s.buckets R x = .ok true ↔ abs R s x) := by
+  rw [Set_Has_eq]
+  exact ⟨⟨_, rfl⟩, by simpa using set_refines_has hR h x⟩
+
+/-- `Add`, `Remove`, `Copy`, as written in ops.go, return (the maps of) sets that satisfy the invariant and
+stand for `S ∪ {x}`, `S ∖ {x}`, `S` — `Copy` whatever order `range` visits the buckets in. -/
+theorem set_refines_mutators_generated (hR : R.Lawful) {s : SetImpl α} (h : Inv R s)
+    (ord : GoMap α → GoMap α) (ho : MapOrder ord) (x y : α) :
+    ∃ a r c, Set_Add s.buckets R x = .ok a ∧ Set_Remove s.buckets R x = .ok r ∧
+      Set_Copy ord s.buckets R = .ok ⟨c, R⟩ ∧
+      Inv R ⟨a⟩ ∧ Inv R ⟨r⟩ ∧ Inv R ⟨c⟩ ∧ c = s.buckets ∧
+      (abs R ⟨a⟩ y ↔ abs R s y ∨ R.equiv y x = true) ∧
+      (abs R ⟨r⟩ y ↔ abs R s y ∧ ¬ R.equiv y x = true) ∧ (abs R ⟨c⟩ y ↔ abs R s y) :=
+  have hi := set_inv_mutators hR h x
+  have hr := set_refines_mutators hR h x y
+  ⟨_, _, _, Set_Add_eq R s x, Set_Remove_eq R s x, Set_Copy_eq ord ho R s h.asc, hi.1, hi.2.1, hi.2.2,
+    by rw [copy_is_snapshot h], hr.1, hr.2.1, hr.2.2.1⟩
+
+/-- `Union`, `Intersection`, `Subtract`, `SymmetricDifference`, as written in ops.go (closures over `EachValue`,
+the iterator loop, `Values`, `Has`, `Add`), return sets with the operands' rules that satisfy the invariant and
+stand for ∪, ∩, ∖, △ — provided `SameRules` accepts the shared rules; otherwise all four panic. -/
+theorem set_refines_algebra_generated (hR : R.Lawful) {s1 s2 : SetImpl α} (h1 : Inv R s1) (h2 : Inv R s2)
+    (same : Rules α → Rules α → Bool) (hs : same R R = true) (ord : GoMap α → GoMap α) (ho : MapOrder ord) (y : α) :
+    ∃ u i d sd, Set_Union same ord s1.buckets R s2.buckets R = .ok ⟨u, R⟩ ∧
+      Set_Intersection same ord s1.buckets R s2.buckets R = .ok ⟨i, R⟩ ∧
+      Set_Subtract same ord s1.buckets R s2.buckets R = .ok ⟨d, R⟩ ∧
+      Set_SymmetricDifference same ord s1.buckets R s2.buckets R = .ok ⟨sd, R⟩ ∧
+      Inv R ⟨u⟩ ∧ Inv R ⟨i⟩ ∧ Inv R ⟨d⟩ ∧ Inv R ⟨sd⟩ ∧
+      (abs R ⟨u⟩ y ↔ abs R s1 y ∨ abs R s2 y) ∧ (abs R ⟨i⟩ y ↔ abs R s1 y ∧ abs R s2 y) ∧
+      (abs R ⟨d⟩ y ↔ abs R s1 y ∧ ¬ abs R s2 y) ∧
+      (abs R ⟨sd⟩ y ↔ (abs R s1 y ∧ ¬ abs R s2 y) ∨ (abs R s2 y ∧ ¬ abs R s1 y)) :=
+  have hi := set_inv_algebra hR s1 s2
+  have hr := set_refines_algebra hR h1 h2 y
+  ⟨_, _, _, _, Set_Union_eq same ord ho R s1 s2 h1.asc h2.asc hs, Set_Intersection_eq same ord ho R s1 s2 h1.asc hs,
+    Set_Subtract_eq same ord ho R s1 s2 h1.asc hs, Set_SymmetricDifference_eq same ord ho R s1 s2 h1.asc h2.asc hs,
+    hi.1, hi.2.1, hi.2.2.1, hi.2.2.2.1, hr.1, hr.2.1, hr.2.2.1, hr.2.2.2⟩
+
+theorem set_algebra_incompatible_rules_generated (same : Rules α → Rules α → Bool) (ord : GoMap α → GoMap α)
+    (R1 R2 : Rules α) (m1 m2 : GoMap α) (hne : same R1 R2 = false) :
+    (∃ w, Set_Union same ord m1 R1 m2 R2 = .panic w) ∧ (∃ w, Set_Intersection same ord m1 R1 m2 R2 = .panic w) ∧
+    (∃ w, Set_Subtract same ord m1 R1 m2 R2 = .panic w) ∧
+    (∃ w, Set_SymmetricDifference same ord m1 R1 m2 R2 = .panic w) :=
+  algebra_panics same ord R1 R2 m1 m2 hne
+
+/-- `Length`, as written in ops.go, is the number of classes of the mathematical set, whatever order `range`
+visits the buckets in. -/
+theorem set_refines_length_generated (hR : R.Lawful) {s : SetImpl α} (h : Inv R s)
+    (ord : GoMap α → GoMap α) (ho : MapOrder ord) :
+    Set_Length ord s.buckets R = .ok (Int.ofNat (values s).length) ∧
+    ∀ reps, Represents R reps (abs R s) → Set_Length ord s.buckets R = .ok (Int.ofNat reps.length) := by
+  have hl := set_refines_length hR h
+  rw [Set_Length_eq ord ho, hl.1]
+  exact ⟨rfl, fun reps hr => by rw [← hl.2.2.1 reps hr, hl.1]⟩
+
+/-- `Values()`, as written in ops.go (collect the bucket ids, `sort.Ints`, concatenate, `sort.SliceStable` under
+`OrderedRules`), lists one representative of every class once; `EachValue` — the `Iterator` loop — visits exactly
+that list in that order, calling back once per member, and never exhausts the loop bound. -/
+theorem set_refines_values_generated (hR : R.Lawful) {s : SetImpl α} (h : Inv R s)
+    (ord : GoMap α → GoMap α) (ho : MapOrder ord) :
+    ∃ l, Set_Values ord s.buckets R = .ok l ∧ Represents R l (abs R s) ∧ l.Perm (values s) ∧
+      ∀ (σ : Type) (cb : σ → α → Res σ) (st : σ), Set_EachValue ord s.buckets R cb st = foldRes cb st l :=
+  have hv := set_refines_values hR h
+  ⟨_, Set_Values_eq ord ho R s h.asc, hv.1, hv.2, fun _ cb st => Set_EachValue_eq ord ho R s h.asc cb st⟩
+
+/-- **Go's map iteration order is immaterial**: for any two schedules of `range`, every translated function
+that ranges over `vals` (directly or through `Values`) returns the same result. -/
+theorem map_order_immaterial_generated {s1 s2 : SetImpl α} (h1 : Asc s1.buckets) (h2 : Asc s2.buckets)
+    (same : Rules α → Rules α → Bool) (hs : same R R = true)
+    (ord ord' : GoMap α → GoMap α) (ho : MapOrder ord) (ho' : MapOrder ord') :
+    Set_Copy ord s1.buckets R = Set_Copy ord' s1.buckets R ∧ Set_Length ord s1.buckets R = Set_Length ord' s1.buckets R ∧
+    Set_Values ord s1.buckets R = Set_Values ord' s1.buckets R ∧
+    Set_Union same ord s1.buckets R s2.buckets R = Set_Union same ord' s1.buckets R s2.buckets R ∧
+    Set_Intersection same ord s1.buckets R s2.buckets R = Set_Intersection same ord' s1.buckets R s2.buckets R ∧
+    Set_Subtract same ord s1.buckets R s2.buckets R = Set_Subtract same ord' s1.buckets R s2.buckets R ∧
+    Set_SymmetricDifference same ord s1.buckets R s2.buckets R =
+      Set_SymmetricDifference same ord' s1.buckets R s2.buckets R := by
+  rw [Set_Copy_eq ord ho R s1 h1, Set_Copy_eq ord' ho' R s1 h1, Set_Length_eq ord ho, Set_Length_eq ord' ho',
+    Set_Values_eq ord ho R s1 h1, Set_Values_eq ord' ho' R s1 h1,
+    Set_Union_eq same ord ho R s1 s2 h1 h2 hs, Set_Union_eq same ord' ho' R s1 s2 h1 h2 hs,
+    Set_Intersection_eq same ord ho R s1 s2 h1 hs, Set_Intersection_eq same ord' ho' R s1 s2 h1 hs,
+    Set_Subtract_eq same ord ho R s1 s2 h1 hs, Set_Subtract_eq same ord' ho' R s1 s2 h1 hs,
+    Set_SymmetricDifference_eq same ord ho R s1 s2 h1 h2 hs, Set_SymmetricDifference_eq same ord' ho' R s1 s2 h1 h2 hs]
+  exact ⟨rfl, rfl, rfl, rfl, rfl, rfl, rfl⟩
+
+/-- "Holds exactly the distinct values it was built from whatever the insertion order", about
+`NewSetFromSlice` as written in set.go. -/
+theorem set_built_order_indep_generated (hR : R.Lawful) (l l' : List α) (hp : l.Perm l')
+    (ord : GoMap α → GoMap α) (ho : MapOrder ord) :
+    ∃ m m', NewSetFromSlice R l = .ok ⟨m, R⟩ ∧ NewSetFromSlice R l' = .ok ⟨m', R⟩ ∧ Inv R ⟨m⟩ ∧
+      (∀ y, abs R ⟨m⟩ y ↔ ∃ x ∈ l, R.equiv y x = true) ∧ (∀ y, abs R ⟨m⟩ y ↔ abs R ⟨m'⟩ y) ∧
+      Set_Length ord m R = Set_Length ord m' R := by
+  have hb := set_built_order_indep hR l l' hp
+  refine ⟨_, _, NewSetFromSlice_eq R l, NewSetFromSlice_eq R l', (set_inv_algebra hR empty empty).2.2.2.2 l,
+    hb.1, hb.2.1, ?_⟩
+  rw [Set_Length_eq ord ho R (fromList R l), Set_Length_eq ord ho R (fromList R l'), hb.2.2]
+
+/-- the hypotheses are satisfiable: two different schedules of `range` -/
+example : MapOrder (fun m : GoMap Int => m) ∧ MapOrder (fun m : GoMap Int => m.reverse) :=
+  ⟨mapOrder_id, mapOrder_reverse⟩
+
+/-- the generated functions run: the history of the example in section «cty/set», on the source text, with
+`range` visiting the buckets in descending order -/
+example :
+    (do
+      let a ← NewSetFromSlice Sample.m3e6 [0, 3, 6, 1]
+      let c ← Set_Copy (fun m => m.reverse) a.vals a.rules
+      let a1 ← Set_Remove a.vals a.rules 9
+      let c1 ← Set_Add c.vals c.rules 4
+      let u ← Set_Union (fun _ _ => true) (fun m => m.reverse) a1 a.rules c1 c.rules
+      let sd ← Set_SymmetricDifference (fun _ _ => true) (fun m => m.reverse) a1 a.rules c1 c.rules
+      let n ← Set_Length (fun m => m.reverse) u.vals u.rules
+      let vs ← Set_Values (fun m => m.reverse) sd.vals sd.rules
+      pure (a1, c1, u.vals, n, vs) : Res (List (Int × List Int) × List (Int × List Int) × List (Int × List Int) × Int × List Int)) =
+    .ok ([(-1, [0]), (0, [1])], [(-1, [0, 3]), (0, [1, 4])], [(-1, [0, 3]), (0, [1, 4])], 4, [3, 4]) := by rfl
+
+end SetGenerated
+/-! ################## end of SECTION «cty/set, regenerated» ################## -/
 
 end C03
 end CtyModel
